@@ -343,6 +343,11 @@ def flush_lean(ctx, batch):
                      "validate_ast accepted a document outside the declarative ValidDoc predicate the theorems assume",
                      c.replay_data({"why": a.get("validdoc_why"), "label": label}), kind="correspondence")
         ctx.stat("validdoc:%s" % a.get("validdoc"))
+        ctx.stat("ranked-certificate:%s" % a.get("ranked"))
+        if a.get("ranked") is False:
+            ctx.fail("corr:accepted-but-not-ranked", "validate_ast accepted a document without a fragment-rank certificate "
+                     "(the totality theorem `responds_certified` does not apply: fragment cycle?)",
+                     c.replay_data({"label": label}), kind="correspondence")
         ctx.stat("key-consistent:%s" % a.get("key_consistent"))
         if "internal" in model:
             ctx.fail("corr:model-internal-on-validated:%s" % model["internal"],
